@@ -1,6 +1,7 @@
 """Shared pieces of the world-level generators: option swarms, pools, content, trees, knobs."""
 import ipaddress
 import posixpath
+import os
 import re
 
 from . import grammar as G
@@ -66,6 +67,13 @@ def gen_opts(r, features=None, cli_safe=True, j9=False):
         if r.random() < 0.25:
             o["pa"] = [rand_net4(r, (16, 24, 28, 32)) for _ in range(r.randint(1, 2))]
         o["private"] = r.random() < 0.15
+        if r.random() < 0.08:
+            # several single-address entries (each is seeded into the mapping at full length when the anonymizer is built)
+            hosts = [rand_net4(r, (32,)) for _ in range(r.randint(2, 5))]
+            if r.random() < 0.6:
+                o["pa"] = (o["pa"] or []) + hosts
+            else:
+                o["pp"] = (o["pp"] or []) + hosts
     if "as" in features:
         o["as"] = r.sample(G.AS_POOL, r.randint(1, 3))
     return o
@@ -391,6 +399,8 @@ def long_pad(r, ln, secrets):
     """Pad a line at its start so that a multiple of the default buffer size (8192 characters) falls at a chosen character
     of it: a reader that hands lines over in bounded pieces would cut the line there."""
     body = "".join(G.render_seg(s, "a", secrets or {}) for s in ln["segs"] if s[0] != "bad")
+    if os.environ.get("VERIF_NO_LONGPAD"):      # evaluation aid only (a change that stalls on huge lines hides its other effects)
+        return ln
     if any(s[0] == "bad" for s in ln["segs"]) or not body:
         return ln
     cut = r.randint(0, len(body))
